@@ -283,7 +283,16 @@ func C20(c *Ctx) {
 		in   ssa.Instruction
 	}
 	var anchors []anchor
-	ssau.Instrs(ana, func(in ssa.Instruction) {
+	// Analyze, its function literals, and the helpers of the package it calls
+	var anaFns []*ssa.Function
+	seenAF := map[*ssa.Function]bool{}
+	for _, f := range append(ssau.WithAnon(ana), pkgClosure(ana)...) {
+		if !seenAF[f] && f.Blocks != nil && prog.PkgOf(f) == "tools" {
+			seenAF[f] = true
+			anaFns = append(anaFns, f)
+		}
+	}
+	visit := func(in ssa.Instruction) {
 		switch x := in.(type) {
 		case *ssa.Store:
 			if ssau.IsField(x.Addr, prog.Abs("tools"), "SpecAnalysis", "Branches") {
@@ -307,23 +316,77 @@ func C20(c *Ctx) {
 				anchors = append(anchors, anchor{"target-variable test", in})
 			}
 		}
-	})
+	}
+	for _, f := range anaFns {
+		ssau.Instrs(f, visit)
+	}
+	// everyIteration: the instruction is executed on every trip of its innermost loop in Analyze; an instruction of
+	// a literal or helper must be executed on every call, and every call of that function must be so placed
+	var everyIteration func(in ssa.Instruction, depth int) (bool, string)
+	everyIteration = func(in ssa.Instruction, depth int) (bool, string) {
+		f := in.Parent()
+		if f == ana {
+			L := flow.InnermostLoop(loops, in.Block())
+			if L == nil {
+				return false, "not inside a loop over the spec"
+			}
+			for _, latch := range L.Latch {
+				if !in.Block().Dominates(latch) {
+					return false, "an iteration can continue at " + c.pos(latch.Instrs[len(latch.Instrs)-1]) + " without it"
+				}
+			}
+			return true, ""
+		}
+		if depth > 3 {
+			return false, "helper nesting too deep"
+		}
+		// executed on every call of f
+		if L := flow.InnermostLoop(flow.Loops(f), in.Block()); L != nil {
+			return false, "inside a loop of " + f.Name() + " (cannot establish once per branch)"
+		}
+		for _, b := range f.Blocks {
+			if _, isRet := b.Instrs[len(b.Instrs)-1].(*ssa.Return); isRet && !in.Block().Dominates(b) {
+				return false, f.Name() + " can return without it"
+			}
+		}
+		// every call of f
+		var sites []ssa.Instruction
+		for _, g := range anaFns {
+			ssau.Instrs(g, func(i2 ssa.Instruction) {
+				ci, ok := i2.(ssa.CallInstruction)
+				if !ok {
+					return
+				}
+				if ci.Common().StaticCallee() == f {
+					sites = append(sites, i2)
+					return
+				}
+				for _, d := range deepDefs(ci.Common().Value, anaFns) {
+					if mc, isMC := d.(*ssa.MakeClosure); isMC && mc.Fn == ssa.Value(f) {
+						sites = append(sites, i2)
+					}
+				}
+			})
+		}
+		if len(sites) == 0 {
+			return false, f.Name() + " is never called"
+		}
+		for _, st := range sites {
+			if ok, why := everyIteration(st, depth+1); !ok {
+				return false, why
+			}
+		}
+		return true, ""
+	}
 	seenA := map[string]bool{}
 	for _, a := range anchors {
 		if seenA[a.what] {
 			continue
 		}
 		seenA[a.what] = true
-		L := flow.InnermostLoop(loops, a.in.Block())
-		ok := L != nil
-		why := "not inside a loop over the spec"
-		if L != nil {
-			for _, latch := range L.Latch {
-				if !a.in.Block().Dominates(latch) {
-					ok = false
-					why = "an iteration can continue at " + c.pos(latch.Instrs[len(latch.Instrs)-1]) + " without the " + a.what
-				}
-			}
+		ok, why := everyIteration(a.in, 0)
+		if !ok && !strings.Contains(why, a.what) {
+			why = why + " (" + a.what + ")"
 		}
 		c.R.Check(ok, "C20-R4", "Analyze: "+a.what+" on every iteration", c.pos(a.in), "dominates every way back to the loop head", why)
 	}
